@@ -53,7 +53,8 @@ Fixpoint manifest_steps (i : nat) (rs roots : list root) (D : list dfile) (pl : 
   | r :: rest =>
     let es := per_root roots D i r in
     let existed := exists_at f (mf_path r) in
-    if existed || negb (match es with [] => true | _ => false end) || root_had_changes roots pl i then
+    if existed || negb (match es with [] => true | _ => false end) || root_had_changes roots pl i
+       || legacy_stale f r then
       (if existed then [KMk (LBackupDir (rtarget r)); KBackup (mf_path r)] else [])
       ++ write_atomic_steps (LDir (rpath r)) (LT (mf_path r)) (new_manifest r es)
       ++ write_atomic_steps (LStateDir (rtarget r)) (LState (rtarget r) (mf_path r)) (new_manifest r es)
